@@ -334,6 +334,18 @@ class Body:
                 if len(ds) == 1 and ds[0][2] == "assign" and ds[0][3]["rv"] == "bin" and ds[0][3]["op"].endswith("WithOverflow"):
                     r = ds[0][3]
                     return ("bin", r["op"][: -len("WithOverflow")], self.expr(r["a"], depth - 1), self.expr(r["b"], depth - 1))
+            # field i of a tuple temporary built by a single aggregate (assert_eq!, match on tuples)
+            if len(p) >= 2 and isinstance(p[1], dict) and set(p[1].keys()) == {"f"}:
+                ds = self.defs().get(p[0], [])
+                if len(ds) == 1 and ds[0][2] == "assign" and ds[0][3]["rv"] == "agg" and ds[0][3]["kind"] == "tuple" and p[1]["f"] < len(ds[0][3]["ops"]):
+                    inner = self.expr(ds[0][3]["ops"][p[1]["f"]], depth - 1)
+                    rest = p[2:]
+                    if not rest:
+                        return inner
+                    if inner[0] == "ref" and rest[0] == "*":
+                        return ("place", inner[1] + rest[1:])
+                    if inner[0] in ("place",):
+                        return ("place", inner[1] + rest)
             # projection of a temp that points somewhere: resolve deref of single-def ref temps
             if len(p) >= 2 and p[1] == "*":
                 base = self.expr_place([p[0]], depth - 1, _seen)
